@@ -181,33 +181,29 @@ def consumeTag (b : Bytes) : Option (Nat × Nat × Bytes) :=
   | some (t, rest) =>
     if t / 8 > 2147483647 ∨ t / 8 < 1 then none else some (t / 8, t % 8, rest)
 
-/-- `consumeFieldValueD` for a start-group tag: the recursion over nested groups as a loop over an
-    explicit stack of open group numbers (innermost first). Go checks `depth < 0` when it enters a
-    group, with depth = 10000 for the outermost one: at most 10001 groups are open at once.
-    Every iteration consumes at least the tag byte: fuel = length of the input suffices. -/
-def skipGroup : Nat → List Nat → Bytes → Option Bytes
-  | 0, _, _ => none
-  | fuel + 1, stack, b =>
+/-- `consumeFieldValueD(num, StartGroupType, b, depth)` after its `depth < 0` test: the loop over the
+    fields of the group `num`. A nested start-group tag recurses with `depth - 1` (refused when that is
+    negative), every other wire type is skipped by `skipScalar` (reserved wire types 6, 7: error), the
+    end-group tag must carry the group's own number. Field numbers inside groups: 1 … MaxInt32.
+    Every iteration consumes at least the tag byte and both recursive calls work on shorter inputs, so
+    fuel = length of the input + 1 suffices (`Proofs.ProtoWire.skipGroup_fuel`). -/
+def skipGroup : Nat → Nat → Nat → Bytes → Option Bytes
+  | 0, _, _, _ => none
+  | fuel + 1, depth, num, b =>
     match consumeTag b with
     | none => none
-    | some (num, wt, rest) =>
-      if wt = 4 then
-        match stack with
-        | [] => none
-        | top :: stack' =>
-          if top ≠ num then none
-          else if stack' = [] then some rest
-          else skipGroup fuel stack' rest
-      else if wt = 3 then
-        if stack.length > 10000 then none else skipGroup fuel (num :: stack) rest
+    | some (num2, wt2, rest) =>
+      if wt2 = 4 then (if num = num2 then some rest else none)
       else
-        match skipScalar wt rest with
+        match (if wt2 = 3 then (if depth = 0 then none else skipGroup fuel (depth - 1) num2 rest)
+               else skipScalar wt2 rest) with
         | none => none
-        | some rest' => skipGroup fuel stack rest'
+        | some rest' => skipGroup fuel depth num rest'
 
-/-- `protowire.ConsumeFieldValue(num, wt, b)`: the rest after the value -/
+/-- `protowire.ConsumeFieldValue(num, wt, b)` = `consumeFieldValueD(num, wt, b, DefaultRecursionLimit)`:
+    the rest after the value (10000 = protowire.DefaultRecursionLimit: 10001 nested groups at most) -/
 def skipValue (num wt : Nat) (b : Bytes) : Option Bytes :=
-  if wt = 3 then skipGroup (b.length + 1) [num] b
+  if wt = 3 then skipGroup (b.length + 1) 10000 num b
   else if wt = 4 then none
   else skipScalar wt b
 
